@@ -525,15 +525,16 @@ func (cr *cacheRun) takePanic(k string) (propagated bool) {
 			cr.viol("C16/cache/take/loader-called-on-hit", fmt.Sprintf("Take(%s) called the loader %d time(s) although the key is cached with %v", k, calls, wantV))
 		case gotErr != nil:
 			cr.viol("C16/cache/take/error-on-hit", fmt.Sprintf("Take(%s) returned error %v on a cached key", k, gotErr))
-		case gotV != wantV:
-			cr.viol("C16/cache/take/not-latest-value", fmt.Sprintf("Take(%s) returned %v, latest value set is %v", k, gotV, wantV))
+		case !sameVal(gotV, wantV.v):
+			cr.viol("C16/cache/take/not-latest-value"+valClassSuffix(wantV), fmt.Sprintf("Take(%s) returned %s, latest value set is %v (reference kinds are compared by identity)", k, descr(gotV), wantV))
 		}
+		cr.vs.compared(wantV.v)
 	case calls != 1:
 		cr.viol("C16/cache/take/loader-calls-on-miss", fmt.Sprintf("Take(%s) on a %s key called the loader %d times, want exactly once", k, cr.m.why(k), calls))
 	default:
 		// the loader panicked: no value was produced, so none may be cached (on a correct cache this Get misses and changes nothing)
 		if v, ok := cr.cache.Get(k); ok {
-			cr.viol("C16/cache/take/failed-load-cached", fmt.Sprintf("Take(%s): the loader panicked, yet the key is cached afterwards with %v", k, v))
+			cr.viol("C16/cache/take/failed-load-cached", fmt.Sprintf("Take(%s): the loader panicked, yet the key is cached afterwards with %s", k, descr(v)))
 		}
 		return pv != nil
 	}
@@ -552,7 +553,7 @@ func cacheSmallLimitHistory(c *kit.Case, r *kit.Rand, sample bool) {
 		c.Viol("C16/cache/new-error", err.Error(), map[string]any{"limit": limit})
 		return
 	}
-	cr := &cacheRun{c: c, m: newCacheModel(limit), cache: cache, rec: newRec(400)}
+	cr := &cacheRun{c: c, m: newCacheModel(limit), cache: cache, rec: newRec(400), r: r}
 	for i := 0; i < nkeys; i++ {
 		cr.keys = append(cr.keys, fmt.Sprintf("k%d", i))
 	}
@@ -646,6 +647,7 @@ func cacheSmallLimitHistory(c *kit.Case, r *kit.Rand, sample bool) {
 	c.Obs("cachesmall_takes_of_same_key_right_after_panicked_load", takesAfterPanic)
 	c.Obs("cachesmall_take_misses_loader_failed", cr.takeFails)
 	c.Obs("cachesmall_take_hits_loader_not_called", cr.takeHits)
+	cr.vs.obs(c, "cachesmall")
 	// non-trivial: a key came back right after its eviction and a loader panicked on a miss
 	c.Sig(resets > 0 && panics > 0, "cache-small", limit, nkeys, cr.rec.h)
 	if sample {
@@ -664,7 +666,7 @@ func cacheStatLoop(c *kit.Case) {
 		c.Viol("C16/cache/new-error", err.Error(), nil)
 		return
 	}
-	cr := &cacheRun{c: c, m: newCacheModel(limit), cache: cache, rec: newRec(200)}
+	cr := &cacheRun{c: c, m: newCacheModel(limit), cache: cache, rec: newRec(200), r: r}
 	for i := 0; i < limit+3; i++ {
 		cr.keys = append(cr.keys, fmt.Sprintf("k%d", i))
 	}
